@@ -76,9 +76,10 @@ RULE = ("histories on SHARED argument objects of seeded data sets (3-4 chromosom
         "correct_cnr) x input shapes, plus functions the table must not list (segmentation incl. variants, call, "
         "genemetrics, bintest, metrics, breaks, export vcf, baf_by_ranges); generator state compared before / after so "
         "that draws bypassing np.random.* count. gather: 0..12 tasks finishing in scrambled order x workers {1,2,3,16,0}. "
-        "NOT generated (real defects, proposed_fixes/C10-*.md): do_reference(do_cluster), do_fix on an empty target "
-        "table, autosomes(also=Series) with a PAR genome, export_nexus_ogt(min_weight>0), object / categorical "
-        "chromosome columns. non-trivial = a history with >= 2 steps or a step run in > 1 process, >= 2 writes or a write "
+        "also generated since their repair (findings AW, AX, AY): do_fix on an empty target table, autosomes(also=Series) "
+        "with a PAR genome, export_nexus_ogt(min_weight>0). NOT generated: do_reference(do_cluster) as an op (finding AV, "
+        "fixed: the k-means seeding is in the generated RNG table), object / categorical chromosome columns (by_arm "
+        "recasts them, proposed_fixes/C10-by-arm-recasts-chromosome.md). non-trivial = a history with >= 2 steps or a step run in > 1 process, >= 2 writes or a write "
         "onto an existing file, a trace with >= 1 draw, a pool with > 1 worker; distinct by hash")
 EXHAUSTIVE = {"quick": True, "thorough": True}  # all histories of length <= 2 over the base alphabet (+ worker variants in thorough)
 ASSUMPTIONS = ["argument objects are those a Python caller would pass: CopyNumArray/GenomicArray tables, lists of "
@@ -204,13 +205,14 @@ def _mkds(seed):
              "n_zygosity", "n_depth", "n_alt_count", "n_alt_freq"]
     vcf_tn = VA.from_rows(snvs, columns=vcols, meta_dict={"sample_id": "S%d" % seed})
     vcf = VA(vcf_tn.data[vcols[:10]].copy(), {"sample_id": "S%d" % seed})
+    vcf_nz = VA(vcf_tn.data[vcols[:5] + vcols[7:10]].copy(), {"sample_id": "S%d" % seed})  # no genotypes: heterozygous() is the table itself
     # a second, coarser set of regions (other breakpoints) used as the "other" table of the interval methods
     regions = GA.from_rows([(c, s + 37, e + 1200, "r%d" % k) for k, (c, s, e, *_r) in enumerate(rows) if k % 7 in (0, 1, 3)],
                            columns=["chromosome", "start", "end", "gene"])
     if alt:  # every table a filtered subset (index labels != positions), optional columns in another order
         srng = _pyrandom.Random(seed + 1)
         cnr, tgt, anti, ref = (_permute_extras(_as_subset(x, srng)) for x in (cnr, tgt, anti, ref))
-        bait, acc, regions, vcf, vcf_tn = (_as_subset(x, srng) for x in (bait, acc, regions, vcf, vcf_tn))
+        bait, acc, regions, vcf, vcf_tn, vcf_nz = (_as_subset(x, srng) for x in (bait, acc, regions, vcf, vcf_tn, vcf_nz))
     np.random.seed(seed)
     seg = segmentation.do_segmentation(cnr.copy(), "haar")
     sm = segmetrics.do_segmetrics(cnr.copy(), seg.copy(), ("mean",), ("sem",), ("ci", "pi"))
@@ -245,7 +247,8 @@ def _mkds(seed):
     c1 = chroms[0]
     s1 = sorted(int(x) for x in cnr.data.loc[cnr.chromosome == c1, "start"])
     ds = {"cnr": cnr, "tgt": tgt, "anti": anti, "ref": ref, "bait": bait, "acc": acc, "seg": seg, "sm": sm, "cl": cl,
-          "clb": clb, "regions": regions, "vcf": vcf, "vcf_tn": vcf_tn, "tgt_u": tgt_u, "anti_u": anti_u, "tgt_gc": tgt_gc,
+          "clb": clb, "regions": regions, "vcf": vcf, "vcf_tn": vcf_tn, "vcf_nz": vcf_nz, "tgt_u": tgt_u, "anti_u": anti_u, "tgt_gc": tgt_gc,
+          "ALSO_SER": (cnr.chromosome == (pre + "X")),
           "anti_0": anti_0, "ref_plain": ref_plain, "ref_cl": ref_cl, "tgt_low": low, "cnr_bare": cnr_bare,
           "cnr_nodepth": cnr_nodepth, "cnr2": cnr2, "CNRS": [cnr, cnr2], "SEGS": [seg, seg],
           "LOGV": cnr["log2"].values[:40].astype(float).copy(), "WTS": cnr["weight"].values[:40].astype(float).copy(),
@@ -379,6 +382,9 @@ def arg_digest(x):
         return h.hexdigest()[:16]
     if isinstance(x, (list, tuple)) and any(hasattr(v, "data") and hasattr(v, "meta") for v in x):
         return hashlib.sha1((type(x).__name__ + ":" + ",".join(arg_digest(v) for v in x)).encode()).hexdigest()[:16]
+    if type(x).__name__ == "Series" and hasattr(x, "to_numpy"):
+        v = x.to_numpy()
+        return hashlib.sha1((str(x.dtype) + repr(list(x.index[:50])) + str(len(x))).encode() + v.tobytes()).hexdigest()[:16]
     if type(x).__module__ == "numpy" and hasattr(x, "tobytes"):
         return hashlib.sha1((str(x.dtype) + str(x.shape)).encode() + x.tobytes()).hexdigest()[:16]
     return digest(x)
@@ -614,6 +620,7 @@ def _ext_ops():
     X["call-vcf"] = call_("sm", "threshold", "vcf")
     X["call-vcf-purity"] = call_("sm", "clonal", "vcf_tn", purity=0.6, is_sample_female=True)
     X["call-vcf-thr-purity"] = call_("sm", "threshold", "vcf", fl="FL_cc", purity=0.45, ploidy=3)
+    X["call-vcf-nogenotypes"] = call_("sm", "clonal", "vcf_nz", purity=0.7)
     X["call-clb"] = call_("clb", "threshold", fl="FL_ampdel")  # table that already has cn / cn1 / cn2 / baf
     X["call-clb-purity"] = call_("clb", "clonal", purity=0.5, is_haploid_x_reference=True, is_sample_female=False)
     X["call-clonal-Yf"] = call_("sm", "clonal", purity=0.7, is_haploid_x_reference=True, is_sample_female=True)
@@ -644,8 +651,8 @@ def _ext_ops():
     X["fix-unsorted"] = fix_("tgt_u", "anti_u")
     X["fix-unsorted-plain"] = fix_("tgt_u", "anti_u", do_gc=False, do_edge=False, do_rmask=False)
     X["fix-gccol"] = fix_("tgt_gc")
-    # (an empty TARGET table is handed back by load_adjust_coverages as it is and then added to in place:
-    # proposed_fixes/C10-fix-empty-target-changed.md; not generated until repaired)
+    # an empty TARGET table (finding AW, fixed 5d92e10: it was handed back as it is and then added to in place)
+    X["fix-notarget"] = fix_(t="anti_0")
     X["fix-noanti"] = fix_(a="anti_0")
     X["fix-noanti-plain"] = fix_(a="anti_0", do_gc=False, do_edge=False, do_rmask=False)
     X["fix-refplain"] = fix_(r="ref_plain")
@@ -694,7 +701,8 @@ def _ext_ops():
     X["export-theta-sm"] = lambda e, p: export.export_theta(e["sm"], e["ref"])
     X["export-theta-snps"] = lambda e, p: list(export.export_theta_snps(e["vcf_tn"]))
     X["export-nexus-basic"] = lambda e, p: export.export_nexus_basic(e["cnr"])
-    # export_nexus_ogt(min_weight > 0) drops the light bins from the caller's array: proposed_fixes/C10-nexus-ogt-drops-callers-bins.md
+    # min_weight > 0 (finding AY, fixed 83dc23b: the light bins were dropped from the caller's array)
+    X["export-nexus-ogt-mw"] = lambda e, p: export.export_nexus_ogt(e["cnr"], e["vcf"], 0.45)
     X["export-nexus-ogt"] = lambda e, p: export.export_nexus_ogt(e["cnr"], e["vcf"])
     X["export-seg-files"] = files_op(cnfiles(("seg", "cl"), "cns"), lambda fns: export.export_seg(fns, chrom_ids=True))
     X["export-gistic"] = files_op(cnfiles(("cnr", "cnr2"), "cnr"), export.export_gistic_markers)
@@ -724,8 +732,10 @@ def _ext_ops():
     X["scatter-bybin-range"] = lambda e, p: _plot(lambda: commands.do_scatter(
         e["cnr"], e["seg"], None, show_range=e["CHR1"], by_bin=True))
     X["heatmap"] = lambda e, p: _plot(lambda: commands.do_heatmap(e["CNRS"], do_desaturate=True))
+    # (do_heatmap(show_range=<chromosome>) raises inside pandas for some segment tables -- RangeIndex.insert with a
+    # fractional label on a one-row frame; a plotting defect, not a C10 matter: the range variant uses the bins)
     X["heatmap-bybin-range"] = lambda e, p: [_plot(lambda: commands.do_heatmap(e["CNRS"], by_bin=True, delim_sampl=True)),
-                                             _plot(lambda: commands.do_heatmap(e["SEGS"], show_range=e["CHR1"], vertical=True))]
+                                             _plot(lambda: commands.do_heatmap(e["CNRS"], show_range=e["CHR1"], vertical=True))]
     X["scatter-gene-range"] = lambda e, p: [
         _plot(lambda: commands.do_scatter(e["cnr"], e["cl"], e["vcf"], show_gene=_a_gene(e), window_width=5000)),
         _plot(lambda: commands.do_scatter(e["cnr"], e["seg"], e["vcf_tn"], do_trend=True, y_min=-2, y_max=2, title="t",
@@ -775,8 +785,8 @@ def _ext_ops():
     X["autosomes"] = lambda e, p: [e["cnr"].autosomes(), e["bait"].autosomes(), e["vcf"].autosomes()]
     X["autosomes-also"] = lambda e, p: [e["cnr"].autosomes(also=e["ALSO"]), e["bait"].autosomes(also=e["CHRX"]),
                                         e["cnr"].autosomes(diploid_parx_genome="grch38")]
-    # CopyNumArray.autosomes(diploid_parx_genome=.., also=<Series>) ORs into the caller's Series:
-    # proposed_fixes/C10-autosomes-also-series.md
+    # also=<Series> together with a PAR genome (finding AX, fixed e17d94d: the caller's Series was OR-ed in place)
+    X["autosomes-also-series"] = lambda e, p: e["cnr"].autosomes(diploid_parx_genome="grch38", also=e["ALSO_SER"])
     X["by_chromosome"] = lambda e, p: list(e["cnr"].by_chromosome())
     X["by_arm-small"] = lambda e, p: list(e["cnr"].by_arm(min_gap_size=2000, min_arm_bins=3))
     X["by_arm-seg"] = lambda e, p: list(e["seg"].by_arm())
@@ -852,6 +862,9 @@ def _ext_ops():
     # ---- VariantArray methods
     X["baf_by_ranges"] = lambda e, p: [e["vcf"].baf_by_ranges(e["cnr"]), e["vcf_tn"].baf_by_ranges(e["seg"], above_half=True, tumor_boost=True),
                                        e["vcf"].baf_by_ranges(e["seg"], summary_func=np.nanmean, above_half=False)]
+    # (het_frac_by_ranges without genotype columns raises -- series length = ranges, index = variants; not a C10 matter)
+    X["baf_by_ranges-nogenotypes"] = lambda e, p: [e["vcf_nz"].baf_by_ranges(e["seg"]), e["vcf_nz"].heterozygous(),
+                                                   e["vcf_nz"].zygosity_from_freq(0.2, 0.8), e["vcf_nz"].mirrored_baf()]
     X["het_frac"] = lambda e, p: [e["vcf"].het_frac_by_ranges(e["seg"]), e["vcf_tn"].het_frac_by_ranges(e["cnr"])]
     X["zygosity_from_freq"] = lambda e, p: [e["vcf"].zygosity_from_freq(0.25, 0.9), e["vcf_tn"].zygosity_from_freq()]
     X["heterozygous"] = lambda e, p: [e["vcf"].heterozygous(), e["vcf_tn"].heterozygous()]
@@ -953,13 +966,13 @@ BASE_OPS = ["target", "antitarget", "fix", "fix-plain", "segment-none", "segment
 PAR_OPS = ["%s@p%d" % (b, p) for b in ("segment-none", "segment-haar", "segment-haar-skip") for p in (2, 3, 16)] + [
     "segment-hmm-germline@p3"]
 EXT_OPS = ["genemetrics-cl-Xf", "genemetrics-cl-Xm", "genemetrics-sm-Yf", "genemetrics-sm-Ym",  # (reference X x sample sex)
-           "call-vcf", "call-vcf-purity", "call-vcf-thr-purity", "call-clb", "call-clb-purity", "call-clonal-Yf",
+           "call-vcf", "call-vcf-purity", "call-vcf-thr-purity", "call-vcf-nogenotypes", "call-clb", "call-clb-purity", "call-clonal-Yf",
            "call-clonal-Xm", "call-clonal-pure-Y", "call-parx", "call-tuple", "call-default-thr", "call-none-cl",
            "call-none-purity", "call-seg", "segment-haar-vcf", "segment-none-vcf", "segment-hmm-vcf",
            "segment-haar-noout", "segment-haar-outliers", "segment-none-skip", "segment-hmm-skip",
            "segment-hmm-noout", "segment-hmm-parx", "segment-haar-parx", "segment-haar-nodepth",
            "segment-hmm-nodepth", "segment-none-nodepth", "fix-unsorted", "fix-unsorted-plain", "fix-gccol",
-           "fix-noanti", "fix-noanti-plain", "fix-refplain", "fix-cluster", "fix-cluster-none", "fix-gc-only",
+           "fix-noanti", "fix-noanti-plain", "fix-notarget", "export-nexus-ogt-mw", "autosomes-also-series", "fix-refplain", "fix-cluster", "fix-cluster-none", "fix-gc-only",
            "fix-edge-only", "fix-rmask-only", "fix-frac", "fix-parx", "fix-lowcov", "load_adjust-anti",
            "load_adjust-empty", "center_by_window", "apply_weights", "match_ref", "edge_bias", "segmetrics-none",
            "segmetrics-ci-only", "segmetrics-clb-smooth-skip", "genemetrics-parx", "genemetrics-guess",
@@ -982,7 +995,7 @@ EXT_OPS = ["genemetrics-cl-Xf", "genemetrics-cl-Xm", "genemetrics-sm-Yf", "genem
            "subtract-self", "intersection-outer", "subdivide-min", "by_gene-seg", "gene_intervals-tuple",
            "transfer_fields-tuple-bare", "transfer_fields-nodepth", "drop_outliers", "group_by_genes", "segment_mean",
            "segfilter-ampdel", "segfilter-ci", "segfilter-cn", "segfilter-sem", "squash_by_groups-arm", "absolutes",
-           "log2_ratios", "rescale_baf", "assign_ci", "baf_by_ranges", "het_frac", "zygosity_from_freq",
+           "log2_ratios", "rescale_baf", "assign_ci", "baf_by_ranges", "baf_by_ranges-nogenotypes", "het_frac", "zygosity_from_freq",
            "heterozygous", "mirrored_baf", "descriptives", "descriptives-series", "smoothing", "bintest-helpers",
            "ci-bootstrap", "reference-helpers"]
 # slow steps whose arguments no other step shares in an interesting way: no sampled partners in the quick tier
